@@ -127,32 +127,7 @@ func (o *vectorOperator) initOutputs(ctx context.Context) error {
 	keepLabels := o.matching.Card != parser.CardOneToOne
 	keepName := !shouldDropMetricName(o.opType, o.returnBool)
 	highCardHashes, highCardInputMap := o.hashSeries(highCardSide, keepLabels, keepName, buf)
-	lowCardHashes, lowCardInputMap := o.hashSeries(lowCardSide, keepLabels, keepName, buf)
-	output, highCardOutputIndex, _ := o.join(highCardHashes, highCardInputMap, lowCardHashes, lowCardInputMap, lowCardSide, includeLabels)
-
-	// Pairings with equal output labels feed the same output series: they may
-	// take turns over time, and fail the query when they coincide at a step.
-	series := make([]labels.Labels, 0, len(output))
-	outputIDs := make(map[string]uint64, len(output))
-	remap := make([]uint64, len(output))
-	for _, s := range output {
-		key := s.Metric.String()
-		id, ok := outputIDs[key]
-		if !ok {
-			id = uint64(len(series))
-			outputIDs[key] = id
-			series = append(series, s.Metric)
-		}
-		remap[s.ID] = id
-	}
-	for _, outputID := range highCardOutputIndex {
-		if outputID != nil {
-			*outputID = remap[*outputID]
-		}
-	}
-	o.series = series
-
-	o.pool.SetStepSize(len(highCardSide))
+	_, lowCardInputMap := o.hashSeries(lowCardSide, keepLabels, keepName, buf)
 
 	// Match groups, numbered across both sides.
 	signatures := make(map[uint64]int)
@@ -173,13 +148,63 @@ func (o *vectorOperator) initOutputs(ctx context.Context) error {
 	highCardSignatures := signatureIDs(len(highCardSide), highCardInputMap)
 	lowCardSignatures := signatureIDs(len(lowCardSide), lowCardInputMap)
 
+	// The series of the "one" side per match group. Which of them is present
+	// can change from step to step; with included labels each of them gives
+	// the pairing its own output labels, so they are ranked within the group.
+	lowCardGroups := make([][]uint64, len(signatures))
+	lowCardRanks := make([]int, len(lowCardSide))
+	for id, group := range lowCardSignatures {
+		if len(includeLabels) > 0 {
+			lowCardRanks[id] = len(lowCardGroups[group])
+		}
+		lowCardGroups[group] = append(lowCardGroups[group], uint64(id))
+	}
+	highCardMetrics := make([]labels.Labels, len(highCardSide))
+	for _, series := range highCardHashes {
+		for _, s := range series {
+			highCardMetrics[s.ID] = s.Metric
+		}
+	}
+
+	// Pairings with equal output labels feed the same output series: they may
+	// take turns over time, and fail the query when they coincide at a step.
+	series := make([]labels.Labels, 0, len(highCardSide))
+	outputIDs := make(map[string]uint64, len(highCardSide))
+	highCardOutputs := make([][]uint64, len(highCardSide))
+	for id, group := range highCardSignatures {
+		ones := lowCardGroups[group]
+		if len(ones) == 0 {
+			// No series of the "one" side can ever match.
+			continue
+		}
+		if len(includeLabels) == 0 {
+			ones = ones[:1]
+		}
+		outputs := make([]uint64, len(ones))
+		for rank, oneID := range ones {
+			metric := buildOutputSeries(highCardMetrics[id], lowCardSide[oneID], includeLabels)
+			key := metric.String()
+			outputID, ok := outputIDs[key]
+			if !ok {
+				outputID = uint64(len(series))
+				outputIDs[key] = outputID
+				series = append(series, metric)
+			}
+			outputs[rank] = outputID
+		}
+		highCardOutputs[id] = outputs
+	}
+	o.series = series
+	o.pool.SetStepSize(len(highCardSide))
+
 	o.table = newTable(
 		o.pool,
 		o.matching.Card,
 		o.operation,
-		highCardOutputIndex,
+		highCardOutputs,
 		highCardSignatures,
 		lowCardSignatures,
+		lowCardRanks,
 		len(signatures),
 		len(series),
 	)
@@ -280,67 +305,6 @@ func (o *vectorOperator) hashSeries(series []labels.Labels, keepLabels, keepName
 	return hashes, inputIndex
 }
 
-// join performs a join between series from the high cardinality and low cardinality operators.
-// It does that by using hash maps which point from series hash to the output series.
-// It also returns array backed indices for the high cardinality and low cardinality operators,
-// pointing from input model.Series ID to output model.Series ID.
-// The high cardinality operator can fail to join, which is why its index contains nullable values.
-// The low cardinality operator can join to multiple high cardinality series, which is why its index
-// points to an array of output series.
-func (o *vectorOperator) join(
-	highCardHashes map[uint64][]model.Series,
-	highCardInputIndex map[uint64][]uint64,
-	lowCardHashes map[uint64][]model.Series,
-	lowCardInputIndex map[uint64][]uint64,
-	lowCardSide []labels.Labels,
-	includeLabels []string,
-) ([]model.Series, []*uint64, [][]uint64) {
-	// Output index points from output series ID
-	// to the actual series.
-	outputIndex := make([]model.Series, 0)
-
-	// Prune high cardinality series which do not have a
-	// matching low cardinality series.
-	outputSize := 0
-	for hash, series := range highCardHashes {
-		outputSize += len(series)
-		if _, ok := lowCardHashes[hash]; !ok {
-			delete(highCardHashes, hash)
-			continue
-		}
-	}
-	lowCardOutputSize := 0
-	for _, lowCardOutputs := range lowCardInputIndex {
-		lowCardOutputSize += len(lowCardOutputs)
-	}
-
-	highCardOutputIndex := make([]*uint64, outputSize)
-	lowCardOutputIndex := make([][]uint64, lowCardOutputSize)
-	for hash, highCardSeries := range highCardHashes {
-		for _, lowCardSeriesID := range lowCardInputIndex[hash] {
-			// Each low cardinality series can map to multiple output series.
-			lowCardOutputIndex[lowCardSeriesID] = make([]uint64, 0, len(highCardSeries))
-		}
-
-		// Included labels come from the complete labels of the "one" side.
-		lowCardSeries := lowCardHashes[hash][0]
-		lowCardSeries.Metric = lowCardSide[lowCardSeries.ID]
-		for i, output := range highCardSeries {
-			outputSeries := buildOutputSeries(uint64(len(outputIndex)), output, lowCardSeries, includeLabels)
-			outputIndex = append(outputIndex, outputSeries)
-
-			highCardSeriesID := highCardInputIndex[hash][i]
-			highCardOutputIndex[highCardSeriesID] = &outputSeries.ID
-
-			for _, lowCardSeriesID := range lowCardInputIndex[hash] {
-				lowCardOutputIndex[lowCardSeriesID] = append(lowCardOutputIndex[lowCardSeriesID], outputSeries.ID)
-			}
-		}
-	}
-
-	return outputIndex, highCardOutputIndex, lowCardOutputIndex
-}
-
 func signature(metric labels.Labels, without bool, grouping []string, keepOriginalLabels, keepName bool, buf []byte) (uint64, labels.Labels) {
 	buf = buf[:0]
 	lb := labels.NewBuilder(metric)
@@ -370,20 +334,21 @@ func signature(metric labels.Labels, without bool, grouping []string, keepOrigin
 	return key, lb.Labels(nil)
 }
 
-func buildOutputSeries(seriesID uint64, highCardSeries, lowCardSeries model.Series, includeLabels []string) model.Series {
-	metric := highCardSeries.Metric
-	if len(includeLabels) > 0 {
-		// An included label replaces the one of the "many" side, or removes
-		// it when the "one" side does not have it; the result stays sorted.
-		lb := labels.NewBuilder(highCardSeries.Metric)
-		for _, ln := range includeLabels {
-			if v := lowCardSeries.Metric.Get(ln); v != "" {
-				lb.Set(ln, v)
-			} else {
-				lb.Del(ln)
-			}
-		}
-		metric = lb.Labels(nil)
+// buildOutputSeries returns the labels of a pairing: those of the "many" side
+// with the included labels taken from the complete labels of the "one" side.
+func buildOutputSeries(highCardMetric, lowCardMetric labels.Labels, includeLabels []string) labels.Labels {
+	if len(includeLabels) == 0 {
+		return highCardMetric
 	}
-	return model.Series{ID: seriesID, Metric: metric}
+	// An included label replaces the one of the "many" side, or removes it
+	// when the "one" side does not have it; the result stays sorted.
+	lb := labels.NewBuilder(highCardMetric)
+	for _, ln := range includeLabels {
+		if v := lowCardMetric.Get(ln); v != "" {
+			lb.Set(ln, v)
+		} else {
+			lb.Del(ln)
+		}
+	}
+	return lb.Labels(nil)
 }
